@@ -883,6 +883,23 @@ def run_sequences(chk, replay=None):
     ]
     n = 40 if chk.tier == "quick" else 500
     extra = [(c07.history(chk.rng), None, "copy-history") for _ in range(n)] if replay is None else []
+    if replay is None:
+        # a dictionary and its copy, a new key written to each / keys removed from each, then both displayed and iterated
+        from vlib.semgen import Decl, Map, Num, Var, ExprS, Method, Str, Display, Iter, Return, Arr, AssignIndex
+        for nk in (2, 3, 5):
+            d = Map([("k%d" % i, Num(i)) for i in range(nk)])
+            for ops in ([("甲", "写入", [Str("d"), Num(4)]), ("乙", "写入", [Str("e"), Num(5)])],
+                        [("乙", "写入", [Str("e"), Num(5)]), ("甲", "写入", [Str("d"), Num(4)])],
+                        [("甲", "移除", [Str("k0")]), ("乙", "移除", [Str("k%d" % (nk - 1))])],
+                        [("乙", "移除", [Str("k0")]), ("甲", "写入", [Str("z"), Num(9)]), ("甲", "移除", [Str("k1")])]):
+                body = [Decl([(False, ["甲"], d)]), Decl([(False, ["乙"], Var("甲"))])]
+                for who, m, args in ops:
+                    body.append(ExprS(Method(Var(who), [(m, args)])))
+                    body.append(Display(Var("甲"), Var("乙")))
+                body.append(Iter(Var("甲"), ["K", "V"], [Display(Var("K"), Var("V"))]))
+                body.append(Iter(Var("乙"), ["K", "V"], [Display(Var("K"), Var("V"))]))
+                body.append(Return(Arr([Var("甲"), Var("乙")])))
+                extra.append((([], body, []), None, "dictionary-copy-witness"))
     semprop.run_property(chk, "C10", "c10s", profiles, 50, 700, replay=replay, extra_programs=extra,
                          what="a program crashes the host or answers differently from the evaluator model")
 
